@@ -67,6 +67,42 @@ class IsCompletedObserver(FeatureObserver):
             feature_types=feature_types,
             subscribe=subscribe,
         )
+        if dispatcher.schedule.num_scheduled_operations > 0:
+            self._mark_completed_by_scheduled_operations()
+
+    def _mark_completed_by_scheduled_operations(self):
+        """Sets the flags of what the operations scheduled before this
+        observer was created have already completed (the remaining operations
+        counters copied in :meth:`initialize_features` reflect them)."""
+        if FeatureType.OPERATIONS in self.features:
+            completed_operations = [
+                op.operation_id
+                for op in self.dispatcher.completed_operations()
+            ]
+            self.features[FeatureType.OPERATIONS][completed_operations, 0] = 1
+        if FeatureType.MACHINES in self.features:
+            touched = sorted(
+                {
+                    machine_id
+                    for machine_schedule in self.dispatcher.schedule.schedule
+                    for scheduled_operation in machine_schedule
+                    for machine_id in scheduled_operation.operation.machines
+                }
+            )
+            self.features[FeatureType.MACHINES][touched, 0] = (
+                self.remaining_ops_per_machine[touched, 0] == 0
+            )
+        if FeatureType.JOBS in self.features:
+            started = [
+                job_id
+                for job_id, index in enumerate(
+                    self.dispatcher.job_next_operation_index
+                )
+                if index > 0
+            ]
+            self.features[FeatureType.JOBS][started, 0] = (
+                self.remaining_ops_per_job[started, 0] == 0
+            )
 
     def _get_remaining_ops_observer(self) -> RemainingOperationsObserver:
         def _has_same_features(observer: DispatcherObserver) -> bool:
